@@ -44,6 +44,11 @@ def mod_source(i, succ):
     lines.append(f"def probe_{i}() probe_importer;")
     # a default that refers to private module state is evaluated in the
     # module's scope, whoever calls
+    # top-level code with a loop that is left early: its loop variable is
+    # no definition of the module
+    lines.append(f"def chosen_{i} = 0;")
+    lines.append(f"for cand in [1, 2, 3] do if cand == 2 then do "
+                 f"chosen_{i} = cand; break; end; end;")
     # a member every module has under the same name
     lines.append(f"def whoami() 'M{i}';")
     lines.append(f"def _rate_{i} = 3;")
@@ -53,7 +58,7 @@ def mod_source(i, succ):
 
 def public_names(i, succ):
     return {f"pub_{i}", f"f_{i}", f"counter_{i}", f"bump_{i}",
-            f"probe_{i}", f"scaled_{i}", "whoami"} | \
+            f"probe_{i}", f"scaled_{i}", "whoami", f"chosen_{i}"} | \
         {f"via_{i}_{j}" for j in succ}
 
 
@@ -74,7 +79,7 @@ def write_graph(graph, where="home"):
 
 
 SLIM = ("r", "ra", "ru", "ria", "b", "ba", "bu", "c", "rf", "re", "re2",
-        "rpa", "ms", "cm", "cma", "rsb", "rfail")
+        "rpa", "ms", "cm", "cma", "rsb", "rfail", "rev")
 
 
 def commands(graph, targets):
@@ -85,7 +90,7 @@ def commands(graph, targets):
     for t in targets:
         for c in ("r", "ra", "ru", "ri", "ria", "rp", "b", "ba", "bu", "c",
                   "p", "pr", "sc", "rf", "re", "re2", "rpa", "riu", "ms", "cm",
-                  "cma", "rsb", "rsq", "rfail"):
+                  "cma", "rsb", "rsq", "rfail", "rev"):
             if slim and c not in SLIM:
                 continue
             cmds.append((c, t))
@@ -134,6 +139,9 @@ def command_text(graph, cmd):
         # a script that loads a module and fails afterwards: the module
         # stays loaded (and bound), a later require does not run it again
         "rfail": f"require M{t}; error 'after-require'",
+        # a require that runs as text through eval binds in the scope of
+        # the eval call
+        "rev": f"eval('require M{t}'); M{t}->bump_{t}()",
         "rf": f"def rq{t}() do require M{t}; M{t}->bump_{t}() end; rq{t}()",
         # issued through interpret(.., environment=E): E persistent / fresh
         "re": f"require M{t}; M{t}->bump_{t}()",
@@ -309,6 +317,14 @@ class Importer(e4.Explorer):
                     m.names[n] = ("mod", x)
                     m.written.discard(n)
                 resp = ["value", f"['M{a}', 'M{b}', 'M{a}']"]
+            elif c == "rev":
+                m.load(t, [])
+                n = f"M{t}"
+                if n not in m.names:
+                    added.add(n)
+                m.names[n] = ("mod", t)
+                m.written.discard(n)
+                resp = ["value", str(m.bump(t))]
             elif c == "rfail":
                 m.load(t, [])
                 n = f"M{t}"
